@@ -10,7 +10,16 @@ use crate::charsets::Charset;
 /// of UTF-8 encoded bytes. The `Read::read_to_string` method can be used to convert
 /// the stream of UTF-8 bytes into a `String`.
 #[derive(Debug)]
-pub struct TextReader<R>(DecodeReaderBytes<R, Vec<u8>>);
+pub struct TextReader<R> {
+    inner: DecodeReaderBytes<R, Vec<u8>>,
+    // `DecodeReaderBytes` loses the end of its output (e.g. the replacement character produced
+    // for a truncated multi-byte sequence at the end of the stream) when it is read with a buffer
+    // of less than 4 bytes, which `read_to_string` does whenever its spare capacity is small.
+    // Reads into small buffers are served from this staging buffer instead.
+    staged: [u8; 4],
+    staged_pos: usize,
+    staged_len: usize,
+}
 
 impl<R> TextReader<R>
 where
@@ -18,7 +27,12 @@ where
 {
     /// Create a new `TextReader` with the given charset.
     pub fn new(inner: R, charset: Charset) -> Self {
-        Self(DecodeReaderBytesBuilder::new().encoding(Some(charset)).build(inner))
+        Self {
+            inner: DecodeReaderBytesBuilder::new().encoding(Some(charset)).build(inner),
+            staged: [0; 4],
+            staged_pos: 0,
+            staged_len: 0,
+        }
     }
 }
 
@@ -27,7 +41,17 @@ where
     R: Read,
 {
     fn read(&mut self, buf: &mut [u8]) -> io::Result<usize> {
-        self.0.read(buf)
+        if self.staged_pos == self.staged_len {
+            if buf.len() >= self.staged.len() {
+                return self.inner.read(buf);
+            }
+            self.staged_len = self.inner.read(&mut self.staged)?;
+            self.staged_pos = 0;
+        }
+        let n = buf.len().min(self.staged_len - self.staged_pos);
+        buf[..n].copy_from_slice(&self.staged[self.staged_pos..self.staged_pos + n]);
+        self.staged_pos += n;
+        Ok(n)
     }
 }
 
